@@ -209,8 +209,9 @@ pub fn dirty<const LA: usize, const LB: usize>(write: bool) {
     kani::assume((g >= BA && g < BA + LA) || (g >= BB && g < BB + LB));
     let idx = if g < BB { g - BA } else { LA + (g - BB) };
     assert!(marked(g) == (idx < written), "[C17] exactly the guest bytes the server wrote are marked dirty (nothing beyond, nothing for reads or failed writes)");
-    kani::cover!(!write || (!fail && k > LA), "write across the segment border");
-    kani::cover!(!write || (!fail && k > 0 && k < LA), "partial first segment");
+    kani::cover!(!write || LB == 0 || (!fail && k > LA), "write across the segment border");
+    kani::cover!(!write || LA < 2 || (!fail && k > 0 && k < LA), "partial first segment");
+    kani::cover!(!write || (!fail && k == total), "everything written");
     kani::cover!(write || k > 0, "read");
     std::mem::forget(r);
     std::mem::forget(io);
@@ -218,6 +219,47 @@ pub fn dirty<const LA: usize, const LB: usize>(write: bool) {
 th!(c17_dirty_write_8_8, 10, dirty::<8, 8>(true));
 th!(c17_dirty_write_3_8, 10, dirty::<3, 8>(true));
 th!(c17_dirty_read_8_8, 10, dirty::<8, 8>(false));
+// zero-length descriptors are legal in a virtio chain: an empty segment in front must not stop the marking
+th!(c17_dirty_write_0_8, 10, dirty::<0, 8>(true));
+th!(c17_dirty_write_8_0, 10, dirty::<8, 0>(true));
+
+fn three<'a, S: BitmapSlice>(a: &'a mut [u8], b: &'a mut [u8], c: &'a mut [u8], sa: S, sb: S, sc: S) -> IoBuffers<'a, S> {
+    let mut q = VecDeque::new();
+    unsafe {
+        q.push_back(VolatileSlice::with_bitmap(a.as_mut_ptr(), a.len(), sa, None));
+        q.push_back(VolatileSlice::with_bitmap(b.as_mut_ptr(), b.len(), sb, None));
+        q.push_back(VolatileSlice::with_bitmap(c.as_mut_ptr(), c.len(), sc, None));
+    }
+    IoBuffers { buffers: q, bytes_consumed: 0 }
+}
+
+/// three segments (the middle one may be empty): marked <=> among the first k written bytes
+pub fn dirty3<const LA: usize, const LB: usize, const LC: usize>() {
+    let mut a = [0u8; LA];
+    let mut b = [0u8; LB];
+    let mut c = [0u8; LC];
+    const BA: usize = 1000;
+    const BB: usize = 5000;
+    const BC: usize = 9000;
+    let mut io = three(&mut a, &mut b, &mut c, RecBitmap { base: BA }, RecBitmap { base: BB }, RecBitmap { base: BC });
+    unsafe { NMARKS = 0 };
+    let total = LA + LB + LC;
+    let count: usize = kani::any();
+    let k: usize = kani::any();
+    let offered = if count < total { count } else { total };
+    kani::assume(k <= offered);
+    let r = io.consume(true, count, |_bufs| Ok(k));
+    let g: usize = kani::any();
+    kani::assume((g >= BA && g < BA + LA) || (g >= BB && g < BB + LB) || (g >= BC && g < BC + LC));
+    let idx = if g < BB { g - BA } else if g < BC { LA + (g - BB) } else { LA + LB + (g - BC) };
+    assert!(marked(g) == (idx < k), "[C17] exactly the guest bytes the server wrote are marked dirty across three descriptors (an empty descriptor does not end the marking)");
+    assert!(io.bytes_consumed() == k && io.available_bytes() == total - k, "[C04] available + consumed always equals the buffer size (three segments)");
+    kani::cover!(k > LA + LB, "write reaches the third descriptor");
+    std::mem::forget(r);
+    std::mem::forget(io);
+}
+th!(c17_dirty3_4_0_4, 12, dirty3::<4, 0, 4>());
+th!(c17_dirty3_3_2_4, 12, dirty3::<3, 2, 4>());
 
 /// after split_at each half marks only its own range
 pub fn dirty_split<const OFF: usize>() {
